@@ -346,8 +346,9 @@ def run_harness(exe, cases_text, timeout=900, env_extra=None, args=()):
 
 
 def run_model(cases_text, timeout=900):
-    # the extracted model is given at most 12 GiB of address space: a generator mistake must not take the machine down
-    rc, so, se, dt = run(["bash", "-c", "ulimit -v 12582912; exec \"$0\"", os.path.join(BUILD, "modelrun")], input=cases_text, timeout=timeout)
+    # the extracted model is given at most 12 GiB of address space (a generator mistake must not take the machine down) and an
+    # unlimited stack (list functions extracted from Coq are not tail-recursive; megabyte files are million-element lists)
+    rc, so, se, dt = run(["bash", "-c", "ulimit -v 12582912; ulimit -s unlimited 2>/dev/null; exec \"$0\"", os.path.join(BUILD, "modelrun")], input=cases_text, timeout=timeout)
     return rc, so, se
 
 
